@@ -197,6 +197,95 @@ def gen_task(r: random.Random, family: str, minmax: str | None = None, dim_max: 
     return desc
 
 
+def var_ranges(vars_):
+    """(lows, highs, perm_n) of the numeric vector the objectives see, from a list of variable descriptors."""
+    lows, highs, perm_n = [], [], 0
+    for v in vars_:
+        t = v["type"]
+        if t == "cont":
+            lows.append(v["lb"])
+            highs.append(v["ub"])
+        elif t in ("cont_multi", "multiobj"):
+            lows.extend(v["lb"])
+            highs.extend(v["ub"])
+        elif t == "discrete":
+            lows.append(min(v["choices"]))
+            highs.append(max(v["choices"]))
+        elif t == "discrete_multi":
+            for ch in v["choices"]:
+                lows.append(min(ch))
+                highs.append(max(ch))
+        elif t == "binary":
+            lows.extend([0.0] * v["n"])
+            highs.extend([1.0] * v["n"])
+        elif t == "perm":
+            perm_n = len(v["items"])
+    return lows, highs, perm_n
+
+
+def other_objective(r: random.Random, task):
+    """Same search space, another objective (and possibly the other direction)."""
+    t = copy.deepcopy(task)
+    lows, highs, perm_n = var_ranges(t["vars"])
+    if "multi" in t["objective"]:
+        t["objective"] = {"multi": [_scalar_spec(r, lows, highs) for _ in t["objective"]["multi"]]}
+    else:
+        t["objective"] = _scalar_spec(r, lows, highs, has_perm=perm_n)
+    if r.random() < 0.5:
+        t["minmax"] = "max" if t["minmax"] == "min" else "min"
+    return t
+
+
+def other_space(r: random.Random, task):
+    """Same task class, same variable structure and dimension, but other bounds / choice lists."""
+    t = copy.deepcopy(task)
+    for v in t["vars"]:
+        ty = v["type"]
+        if ty == "cont":
+            w = v["ub"] - v["lb"]
+            k = r.choice([-3.0, 2.0, 0.25])
+            v["lb"], v["ub"] = _rnd(v["lb"] + k * w), _rnd(v["lb"] + k * w + w * r.choice([0.1, 1.0, 5.0]))
+        elif ty in ("cont_multi", "multiobj"):
+            k = r.choice([-3.0, 2.0, 0.25])
+            s = r.choice([0.1, 1.0, 5.0])
+            lb, ub = [], []
+            for lo, hi in zip(v["lb"], v["ub"]):
+                w = hi - lo
+                lb.append(_rnd(lo + k * w))
+                ub.append(_rnd(lo + k * w + w * s))
+            v["lb"], v["ub"] = lb, ub
+        elif ty == "discrete":
+            v["choices"] = _choices(r, max(2, len(v["choices"]) + r.choice([-2, -1, 1, 3])))
+        elif ty == "discrete_multi":
+            v["choices"] = [_choices(r, max(2, len(ch) + r.choice([-2, -1, 1, 3]))) for ch in v["choices"]]
+    return other_objective(r, t)
+
+
+def gen_history(r: random.Random, task, p=0.2):
+    """The optimizer instance / the process has been used before (DESIGN §4 `instance_history`)."""
+    if r.random() >= p:
+        return []
+    out = []
+    for _ in range(r.choice([1, 1, 2])):
+        kind = r.choice(["other_objective", "other_objective", "other_space", "other_task", "same"])
+        if kind == "other_objective":
+            t = other_objective(r, task)
+        elif kind == "other_space":
+            t = other_space(r, task)
+        elif kind == "same":
+            t = copy.deepcopy(task)
+        else:
+            t = gen_task(r, r.choice(["cont_multi", "cont_mixed", "discrete", "mixed"]))
+        out.append({"task": t, "instance": r.choice(["same", "same", "other"]), "kind": kind})
+    if r.random() < 0.6:
+        # equal integer seeds: the earlier run and the observed run start from the same initial positions
+        s = r.choice([0, 1, 42, 12345])
+        task["seed"] = s
+        for h in out:
+            h["task"]["seed"] = s
+    return out
+
+
 # ------------------------------------------------------------------------- configurations
 def perturb_value(r: random.Random, v):
     if isinstance(v, bool):
@@ -298,4 +387,5 @@ def gen_scenario(seed: int, optimizer: str, family: str, mode: str, validate, *,
         "sched": gen_sched(r) if mode != "serial" else {"policy": "fifo"},
         "faults": gen_faults(r, mode, workers or 0, p_none=opts.get("p_no_faults", 0.45), kinds=opts.get("fault_kinds")),
     }
+    desc["history"] = gen_history(r, task, p=opts.get("p_history", 0.2))
     return desc
